@@ -220,6 +220,19 @@ func (s *Server) Run() {
 			s.send(c.Tag + " OK idle done\r\n")
 			continue
 		}
+		if c.Name == "AUTHENTICATE" && len(strings.Fields(first)) == 3 && strings.HasSuffix(strings.ToUpper(first), " LOGIN") {
+			// two-step mechanism: two challenges, each answered by one client line
+			ok := true
+			for _, ch := range []string{"VXNlcm5hbWU6", "UGFzc3dvcmQ6"} {
+				s.Events = append(s.Events, "continue "+c.Tag)
+				s.send("+ " + ch + "\r\n")
+				if _, ok = s.readLine(); !ok {
+					return
+				}
+			}
+			s.send(c.Tag + " OK [CAPABILITY IMAP4rev1] authenticated\r\n")
+			continue
+		}
 		if c.Name == "AUTHENTICATE" && len(strings.Fields(first)) == 3 {
 			// no initial response: one empty challenge, then the client's answer line
 			s.Events = append(s.Events, "continue "+c.Tag)
